@@ -128,7 +128,9 @@ example : HistOK init (W2.take 4) ∧ ¬ NoneCancelled (run (W2.take 4)) 1 1 := 
   (`TargetCommitted`; the driver selects jobs of committed updates only);
 * (H1) `complete b j`: every child of `j` belongs to a committed update (`ChildrenCommitted`);
 * (H2) `commitUpdate b u`: no job of `u` is cancelled (`NoneCancelled`), and the rows in the job-id range of `u` belong to
-  `u` or to a committed update (`RangeOwned`; the server does not validate client job ids, property C08);
+  `u` or to a committed update (`RangeOwned`; since the C08 repair `_create_jobs` rejects job ids outside the update's
+  reserved range — `specIdsOk` in the model, `C08.accepted_ids_ok` — so this part holds in every reachable state and is kept
+  only because the counter lemmas are stated for arbitrary states);
 * (H4) `insertGroups`: every group created has the root among its ancestors, i.e. its parent existed (`GroupsRooted`).
 `Op.WF` (terminal state in completion reports) is NOT needed: the trigger accounts for any new state.
 `HistOK s ops` says `OpOK` holds at every step of the history `ops` started in `s`. -/
@@ -170,26 +172,20 @@ def W3 : List Op :=
   [.createBatch 7 1 100, .createUpdate 1 200 1 0 7, .insertJobs 1 1 7 [⟨1, [], [], some 0, 0, false, 1000, 0⟩],
    .newInstance 5 8000 true, .activate 5, .schedule 1 1 11 5]
 
-/-- (H2', `RangeOwned`) a job of the open update 3 was submitted with relative id 0, which lands in the id range of
-update 2; committing update 2 recomputes it to Ready and the trigger counts it -/
-def W4 : List Op :=
-  [.createBatch 7 1 100, .createUpdate 1 200 1 0 7, .insertJobs 1 1 7 [⟨1, [], [], some 0, 0, false, 1000, 0⟩],
-   .commitUpdate 1 1, .createUpdate 1 201 2 0 7, .createUpdate 1 202 1 0 7,
-   .insertJobs 1 2 7 [⟨1, [], [], some 0, 0, false, 100, 0⟩, ⟨3, [], [], some 0, 0, false, 100, 0⟩],
-   .insertJobs 1 3 7 [⟨0, [], [], some 0, 0, false, 10, 0⟩], .commitUpdate 1 2]
+/- (H2', `RangeOwned`): the former witness W4 (a job of the open update 3 submitted with relative id 0, landing in the id
+range of update 2) is no longer a history of the model: `_create_jobs` now answers 400 to a job id outside `[1, n_jobs]`
+(C08 repair, `specIdsOk`).  No reachable witness remains; see the note at (H2) above. -/
 
-/-- (H4, `GroupsRooted`) a group whose named parent does not exist gets no ancestor rows: its jobs are not staged at
-the root, so the commit does not move them into `n_ready_jobs` -/
-def W5 : List Op :=
-  [.createBatch 7 1 100, .createUpdate 1 200 0 2 7, .insertGroups 1 1 7 [⟨1, some 0, 0⟩, ⟨5, some 3, 0⟩],
-   .insertJobs 1 1 7 [⟨1, [], [], some 5, 0, false, 1000, 0⟩], .commitUpdate 1 1]
+/- (H4, `GroupsRooted`): the former witness W5 declared an update with 0 jobs and 2 groups, created a group under a parent id
+that does not exist (so it has no ancestor rows) and sent a job into it; the root staged 0 jobs = declared 0 and the commit went
+through without counting the job.  Since the C08 repair a job id outside `[1, n_jobs]` is answered 400, so the update must
+declare the job; the job of the un-rooted group is then not staged at the root and `commit_batch_update` refuses the update
+(wrong number of jobs, rc 1).  The hypothesis is still needed for the `insertGroups` step itself (last example below). -/
 
 example : get (run W3).ctr (.uReady 7 0) = -1 ∧ sumBy (w (run W3) (.uReady 7 0)) (run W3).jobs = 0 := by decide +kernel
-example : get (run W4).ctr (.uReady 7 0) = 3 ∧ sumBy (w (run W4) (.uReady 7 0)) (run W4).jobs = 2 := by decide +kernel
-example : get (run W5).ctr (.uReady 7 0) = 0 ∧ sumBy (w (run W5) (.uReady 7 0)) (run W5).jobs = 1 := by decide +kernel
 example : HistOK init (W3.take 5) ∧ ¬ TargetCommitted (run (W3.take 5)) 1 1 := by decide +kernel
-example : HistOK init (W4.take 8) ∧ ¬ RangeOwned (run (W4.take 8)) 1 2 := by decide +kernel
-example : HistOK init (W5.take 2) ∧ ¬ OpOK (run (W5.take 2)) (.insertGroups 1 1 7 [⟨1, some 0, 0⟩, ⟨5, some 3, 0⟩]) := by
+example : HistOK init [.createBatch 7 1 100, .createUpdate 1 200 1 2 7] ∧
+    ¬ OpOK (run [.createBatch 7 1 100, .createUpdate 1 200 1 2 7]) (.insertGroups 1 1 7 [⟨1, some 0, 0⟩, ⟨5, some 3, 0⟩]) := by
   decide +kernel
 
 /-! ## non-vacuity -/
